@@ -18,6 +18,15 @@
 //!
 //! Usage: c20 --threads N --iters M [--only a,b,c [--exact]] [--lite] [--list] [--samples]
 //! (counts come from argv, never from the environment; no clock, no env, no FFI).
+//!   --only a,b   run only the rows named a, b (a name without `/` selects `a` and `a/...`)
+//!   --exact      `--only` names select exactly the rows of that name
+//!   --lite       Miri mode: the same nested shapes with few leaves, one `build` per
+//!                rendering, no `Debug` rendering, clones are compared but not re-rendered
+//!   --list       print `TYPE <row>` / `GATEONLY <type>` and exit
+//!   --samples    print `SAMPLE <row> <rendering>` (newlines escaped) for the evidence file
+//! Output: `SHIPPED <row> threads=<n> iters=<m> renders_equal=<k> awaits=2` per row,
+//! `MISMATCH <row> ...` per differing cross-thread rendering / failed `==`, and a final
+//! `DONE types=<rows> total_renders=<n> awaits=<n> mismatches=<n>` (exit 3 on mismatch).
 
 mod table;
 mod vals;
